@@ -19,6 +19,9 @@ def mc_parallel(chk, jobs, max_parallel=4):
         module, cfg, expect, workers, timeout, what = j
         return j, vlib.mc(module, cfg, expect_violation=expect, workers=workers, timeout=timeout, heap="2g")
 
+    if os.environ.get("VERIF_SKIP_MODELS"):      # development aid for the mutation self-test only (models do not depend on the repo tree)
+        log("[note] VERIF_SKIP_MODELS set: %d TLC lemma/model runs skipped" % len(jobs))
+        return results
     with ThreadPoolExecutor(max_workers=max_parallel) as ex:
         futs = [ex.submit(one, j) for j in jobs]
         errs = []
@@ -260,6 +263,134 @@ def replay_c10(chk, path):
     vlib.sh([b, script, trace], timeout=600, env={"VERIF_WATCHDOG_S": "3"})
     events = vlib.read_ndjson(trace)
     res = vlib.validate("ShamirTrace", trace, timeout=900, heap="2g")
+    chk.add_traces(1, len(events), res, "replay")
+    chk.nontrivial("replay-a"); chk.nontrivial("replay-b")
+    vlib.report_trace_violations(chk, res, events, label="replay")
+
+
+# ================================================================================================
+# C12
+def c12_models(thorough):
+    return [
+        ("DHLemmas", "MC_DH_p31.cfg", None, 2, 900, "p = 31, g = 3, all exponents 0..30: (g^a)^b = (g^b)^a = g^(ab mod (p-1)); add/double ModExp = native arithmetic"),
+        ("DHLemmas", "MC_DH_p46337.cfg", None, 2, 900, "largest prime whose products fit TLC integers: overflow-free MulMod/AddMod = native, agreement, Fermat"),
+        ("DHLemmas", "MC_DH_p.cfg", None, 2, 900, "p = 2^31 - 1, g = 5, boundary and spread exponents: agreement, exponent-product law, Fermat (plus Python-computed vectors as ASSUMEs in DH.tla)"),
+        ("DHLemmas", "MC_DH_dev_composite.cfg", "L_Fermat", 1, 600, "composite modulus 33 must violate Fermat (the lemma invariants are not vacuous)"),
+    ]
+
+
+def c12_script(rng, thorough):
+    p = P31
+    lines = ["reset"]
+    cands = [0, 1, 2, 3, 65535, 65536, p - 2, p - 1, p, p + 1, 2 ** 31, 2 ** 31 + 1, 2 ** 32 - 2, 2 ** 32 - 1]
+    cands += [rng.randrange(2, p) for _ in range(12)] + [rng.randrange(p, 2 ** 32) for _ in range(12)]
+    for c in cands:
+        lines.append("validate c=%d" % c)
+    edge = [2, 3, p - 3, p - 2]
+    pairs = [(a, b) for a in edge for b in edge]
+    for _ in range(40 if not thorough else 500):
+        pairs.append((rng.choice([rng.randrange(2, p - 1), rng.randrange(2, 70000), rng.choice(edge)]), rng.randrange(2, p - 1)))
+    for a, b in pairs:
+        lines.append("kx a=%d b=%d" % (a, b))
+    nh = 36 if not thorough else 400
+    fixed_a = (rng.randrange(2 ** 32), rng.randrange(4, 10 ** 6))
+    for k in range(nh):
+        if k % 12 == 0:
+            lines.append("reset")
+        sa, ia = fixed_a if k % 3 == 0 else (rng.choice([0, 1, 2 ** 32 - 1, rng.randrange(2 ** 32)]), rng.choice([0, 1, 2, 3, rng.randrange(4, 10 ** 6)]))
+        sb, ib = rng.randrange(2 ** 32), rng.randrange(4, 10 ** 6)
+        if ib == ia:
+            ib += 1
+        powd = rng.choice([0, 4, 4, 8])
+        for order in ("ab", "ba"):
+            lines.append("hs seeda=%d seedb=%d ida=%d idb=%d order=%s pow=%d adv=%d" % (sa, sb, ia, ib, order, powd, rng.choice([0, 1, 999, 5000])))
+    lines.append("reset")
+    bad = [0, 1, p, p + 1, 2 ** 31, 2 ** 32 - 1] + [rng.randrange(p, 2 ** 32) for _ in range(6)]
+    good = [2, p - 1, p - 2] + [rng.randrange(2, p) for _ in range(5)]
+    for c in bad + good:
+        lines.append("hsbad seed=%d id=%d c=%d pow=0" % (rng.randrange(2 ** 32), rng.randrange(4, 10 ** 6), c))
+    for c in bad[:6]:
+        lines.append("hsbad seed=%d id=%d c=%d pow=4 nonce=%d" % (rng.randrange(2 ** 32), rng.randrange(4, 10 ** 6), c, rng.randrange(2 ** 31)))
+    return lines
+
+
+def _val(limbs):
+    return limbs[0] * 65536 + limbs[1]
+
+
+def _cls(v):
+    p = P31
+    return "0" if v == 0 else "1" if v == 1 else "2" if v == 2 else "p-1" if v == p - 1 else "p" if v == p else ">p" if v > p else "low" if v < 65536 else "interior"
+
+
+def c12_drive(chk, lines, label):
+    b = vlib.build("dh")["dh"]
+    wd = vlib.workdir("dh-%s-%s" % (chk.pid, label))
+    script, trace = os.path.join(wd, "script.txt"), os.path.join(wd, "trace.ndjson")
+    open(script, "w").write("\n".join(lines) + "\n")
+    vlib.sh([b, script, trace], timeout=900)
+    events = vlib.read_ndjson(trace)
+    res = vlib.validate("DHTrace", trace, timeout=2400, heap="2g")
+    nb = sum(1 for e in events if e["op"] == "reset")
+    chk.add_traces(nb, len(events), res, label)
+    for e in events:
+        if e["op"] == "validate":
+            chk.nontrivial(["validate", _cls(_val(e["c"])), e["res"]])
+        elif e["op"] == "kx":
+            chk.nontrivial(["kx", _cls(_val(e["a"])), _cls(_val(e["b"])), _val(e["a"]) < _val(e["b"])])
+        elif e["op"] == "hs":
+            chk.nontrivial(["hs", e["order"], e["pow"], e["oka"], e["okb"], e["ida"] < 4, _val(e["puba"]) < _val(e["pubb"])])
+        elif e["op"] == "hsbad":
+            chk.nontrivial(["hsbad", _cls(_val(e["c"])), e["pow"], e["ok"]])
+    hs = [e for e in events if e["op"] == "hs"][:2]
+    chk.sample({"source": label, "stats": res.get("stats"), "handshakes": hs})
+    vlib.report_trace_violations(chk, res, events, label=label)
+    st = res.get("stats", {})
+    log("[trace] dh %s: %d behaviours, %d events, %d clause failures; stats %s" % (label, nb, len(events), len(res.get("viol", [])), json.dumps(st)))
+    if st.get("kdf_checked", 0) != st.get("kdf_equal", 0):
+        log("[note] design drift (not a violation): %d of %d keys differ from HMAC(SHA256(BE32(g^ab)), BE32(min pub) . BE32(max pub)) -- the key derivation changed; "
+            "equality between the two nodes and the DH arithmetic are still checked" % (st["kdf_checked"] - st["kdf_equal"], st["kdf_checked"]))
+    if st.get("handshakes_mutual", 0) * 2 < st.get("handshakes", 1) or st.get("candidates_accepted", 0) < 1 or st.get("validate_accepted", 0) < 1 or st.get("kx", 0) < 10:
+        raise vlib.MachineryError("dh trace is vacuous (few mutual handshakes / no in-range candidate accepted): %s" % st)
+    return res
+
+
+def run_c12(chk):
+    thorough = chk.tier == "thorough"
+    chk.level = "exploration"
+    chk.cov["rule"] = ("cases = candidate public values {0,1,2,3,p-2,p-1,p,p+1,2^31,2^32-1,...} plus seeded random ones on both sides of p; scalar pairs {2,3,p-3,p-2}^2 plus "
+                       "seeded random pairs in [2,p-2]; pairs of real Nodes with random identity seeds and peer ids (incl. all-00/all-FF ids, seeds 0 and 2^32-1), PoW "
+                       "difficulty {0,4,8}, both handshake orders; candidates offered to Node::perform_handshake with and without PoW. A case is distinct/non-trivial by "
+                       "(operation, class of the value w.r.t. 1/p, order, PoW difficulty, outcome); every event is decided by TLC evaluating spec/DH.tla (+ Sha256/Hmac for the KDF count).")
+    bg = Background(lambda: mc_parallel(chk, c12_models(thorough), max_parallel=3))
+    try:
+        c12_drive(chk, c12_script(chk.rng, thorough), "generated-cases")
+    finally:
+        bg.join()
+    chk.assumptions += ["KeyExchange::modexp (private static) is read through an explicit-instantiation accessor in the driver; no repo change",
+                        "Node private scalar read through the harness-defined friend test::NodeTestAccess",
+                        "the exact key-derivation (SHA-256 / HMAC-SHA-256 over sorted publics) is recomputed by TLC but only counted: the statement fixes equality, dependence on both publics and the DH arithmetic, not the KDF",
+                        "virtual clock (link-time interposition); each handshake uses fresh Node objects so the cooldown short-cut (C20) is not involved"]
+
+
+def replay_c12(chk, path):
+    cmds = ["reset"]
+    for ln in open(path):
+        if ln.startswith("#") or not ln.strip():
+            continue
+        e = json.loads(ln)
+        if e.get("op") == "cmd":
+            cmds.append(e["text"])
+    if len(cmds) < 2:
+        raise vlib.MachineryError("no cmd events in %s" % path)
+    chk.level = "exploration"
+    b = vlib.build("dh")["dh"]
+    wd = vlib.workdir("dh-replay")
+    script, trace = os.path.join(wd, "script.txt"), os.path.join(wd, "trace.ndjson")
+    open(script, "w").write("\n".join(cmds) + "\n")
+    vlib.sh([b, script, trace], timeout=600)
+    events = vlib.read_ndjson(trace)
+    res = vlib.validate("DHTrace", trace, timeout=900, heap="2g")
     chk.add_traces(1, len(events), res, "replay")
     chk.nontrivial("replay-a"); chk.nontrivial("replay-b")
     vlib.report_trace_violations(chk, res, events, label="replay")
